@@ -31,7 +31,7 @@ LEAVES = [
     ('fx', 2, LO + NOON, HI + NOON),
 ]
 # the neutral elements 1 and 1.0 included: an expression with them is still an expression (a missing operand is skipped, the number counts)
-SCALARS = [0, 2, 0.5, 1, 1.0]
+SCALARS = [0, 2, 0.5, 1, 1.0, 1e-07]  # 1e-07: a capacity that is tiny but positive is capacity
 OPS = ['+', '-', '*', '/', '|']
 
 
